@@ -5,6 +5,8 @@ import sys
 VERIF_ROOT = os.path.dirname(os.path.dirname(os.path.abspath(__file__)))
 REPO = os.path.abspath(os.environ.get("VERIF_REPO", "/repo"))
 GUARD = "JAMESPIMES_PYTRS_VERIF"
+# evidence and newly written replay files go here (the selftest redirects them to a scratch dir)
+OUT_ROOT = os.path.abspath(os.environ.get("VERIF_OUT", VERIF_ROOT))
 
 sys.dont_write_bytecode = True
 
